@@ -25,6 +25,7 @@ RULE = (
     "number->'abc'/[]/{}, retype name->5, type->5/[]/unregistered name, list<->dict, fragment->wrong scalar, list element->junk/null/{}/"
     "element missing a key, entries=-1, version '99.99'/5/'abc', header key deleted, sparse key non-integer}. distinct = digest(document, "
     "JSON path, mutation kind); non-trivial = the mutant differs from the original document"
+    ' Negative entries in four spellings (-1, -0.5, -1e-300, "-inf").'
 )
 ASSUMPTIONS = [
     "mutations that yield another VALID document are not generated: deleting optional keys, true for a number, renaming to a registered type of the same shape, adding keys inside user-keyed maps, changing bins:type of an empty sparse container, removing a whole list element",
